@@ -862,6 +862,9 @@ class History(object):
         newest = self.snaps[-1]
         if errname in ("ConnectionLost", "ConnectionDone"):
             return "connection-lost-on-another-server-aborts-the-read"
+        if errname == "UnrecoverableFileError" and any(vs.zombie for vs in self.g.servers):
+            # a listed server whose every call fails at once (DeadReferenceError) and a survey that found nothing
+            return "servermap-update-finishes-at-once-when-a-query-fails-synchronously"
         if errname not in (None, "NotEnoughSharesError", "UnrecoverableFileError"):
             return "read-aborted-by-%s-despite-k-intact-shares" % errname
         # a share that carries the newest version's signed prefix but an edited (unsigned) offset table?
